@@ -7,6 +7,7 @@ PROPERTIES = {}
 MUTANTS = []
 CLAIMS = {}
 NOT_APPLICABLE = {}
+SHARED = {}   # helpers exported by one property module for another (C01 -> C03, C06)
 
 def prop(pid, level, explanation, harnesses, trusted=(), assumptions=(), jobs=None, mc=None):
     PROPERTIES[pid] = {"level": level, "explanation": explanation, "harnesses": harnesses,
